@@ -208,7 +208,7 @@ def run(ctx):
         combos = [(0, 0, 0), (0, 1, 0), (1, 1, 0), (0, 0, 1), (0, 1, 1), (1, 1, 1)]
         for e in m.events:
             cv = e.mcv
-            bad = []
+            bad, bad2, any_acc = [], [], False
             for (run_, act, out) in combos:
                 store = {("EMU", F("emu", "thread")): PTR("TH"), ("EMU", F("emu", "ev")): PTR("EV"),
                          ("EV", F("emu_ev", "m")): INT(ord(cv[0])), ("EV", F("emu_ev", "c")): INT(ord(cv[1])),
@@ -220,8 +220,20 @@ def run(ctx):
                 allowed = _guard(guard, run_, act, out)
                 if acc and not allowed:
                     bad.append("accepted with running=%d active=%d out_of_cpu=%d" % (run_, act, out))
+                any_acc = any_acc or acc
+                if allowed and not acc and outs:
+                    bad2.append("refused on all %d paths with running=%d active=%d out_of_cpu=%d" % (len(outs), run_, act, out))
             ctx.check(not bad, "R8.3", "%s:%s:requires:%s" % (m.name, cv, guard), evfn.loc(),
                       "%s must only be accepted when the thread is %s, but is %s" % (cv, guard, "; ".join(bad)))
+            # only where acceptance is seen to depend on the flags (an event this evaluation cannot follow to an
+            # accepting path under any flags says nothing about its guard)
+            # the base and kernel models add per-event preconditions of their own (OAs needs an active thread ...),
+            # decided by C04 / C05: the converse is claimed for the models whose precondition is the whole story
+            if m.name in ("ovni", "kernel"):
+                continue
+            ctx.check(not (bad2 and any_acc), "R8.3", "%s:%s:accepted-when:%s" % (m.name, cv, guard), evfn.loc(),
+                      "%s is legal whenever the thread is %s, but is %s: the guard is stricter than the documented "
+                      "precondition (e.g. a cooling or warming thread is active, not running)" % (cv, guard, "; ".join(bad2)))
 
         # ---- R8.4 --------------------------------------------------------------------
         if cs is None:
